@@ -29,7 +29,7 @@ def main():
     pycommon.indent_skeleton(chk, o, 5 if chk.quick else 6, pycommon.CORE_OPTS, wall=150 if chk.quick else 1500)
     pycommon.indent_skeleton(chk, o, 2 if chk.quick else 3, pycommon.RICH_OPTS, wall=120 if chk.quick else 1500, label="rich")
     if chk.quick:
-        pycommon.b_holes(chk, o, [s for s in seeds.PY_SNIPPETS if len(s) < 60], 4, wall=120, insert=True, name="B-holes insert k=1")
+        pycommon.b_holes(chk, o, [s for s in seeds.PY_SNIPPETS if len(s) < 28], 0, wall=150, insert=True, name="B-holes insert k=1")
         pycommon.b_holes(chk, o, seeds.sample(chk.rng, py, 80), 3, wall=120)
         pycommon.a_holes(chk, o, seeds.sample(chk.rng, py, 40) + seeds.sample(chk.rng, lits, 30), 3, wall=100)
         cut_src = [s for s in seeds.sample(chk.rng, py, 40) if len(s) < 120]
